@@ -91,7 +91,8 @@ def collectRes (r : Option (Collected Int)) : String :=
   | none => "blocks"
   | some c =>
     let ctx := match c.ctx with | some x => renderCtx x | none => "nil"
-    let err := match c.err with | some e => renderErr e | none => "-"
+    -- Error(nil) (script token E0, model value `sentinel 0`): what Collect returns as its error IS nil
+    let err := match c.err with | some (.sentinel 0) => "-" | some e => renderErr e | none => "-"
     s!"vals={render c.vals} err={err} ctx={ctx}"
 
 def run (c : Case) : String :=
